@@ -41,7 +41,7 @@ theorem gEx16_wf : wf gEx16 = true := by decide
 set_option maxRecDepth 4000 in
 theorem gEx16_trace : (run gEx16 schedEx16).tr =
     [.sub 0, .acc 0, .cmd 0 0, .ret 0 0 true, .cmd 0 1, .ret 0 1 true, .cmd 1 0, .ret 1 0 true,
-     .cmd 1 1, .ret 1 1 false, .done 1 false, .cmd 3 0, .ret 3 0 true, .done 3 true,
+     .cmd 1 1, .ret 1 1 false, .done 1 false, .hacc 3, .hacc 2, .cmd 3 0, .ret 3 0 true, .done 3 true,
      .cmd 2 0, .ret 2 0 true, .done 2 true, .cmd 0 2, .ret 0 2 true, .done 0 true,
      .mwait false, .fin 0 true, .fin 1 false, .fin 2 true, .fin 3 true, .root true] := by decide
 
